@@ -397,7 +397,10 @@ func wantFmt(f *Fmt) wantedFmt {
 	if f.Size > 0 {
 		w.Sz = strconv.Itoa(f.Size * 2) // w:sz counts half points, the API takes points
 	}
-	w.Color = f.Color
+	// a colour is six hex digits; callers also write it the CSS way ("#1F4E79", the spelling the same TextFormat is
+	// accepted with by the paragraph calls): the colour asked for is the six digits, and those are what w:color/@w:val
+	// can hold (ST_HexColor has no '#')
+	w.Color = strings.TrimPrefix(f.Color, "#")
 	w.Font = f.Font // FontFamily is the preferred field, FontName its alias
 	if w.Font == "" {
 		w.Font = f.FontName
@@ -688,6 +691,9 @@ func run(c Case) *kit.Result {
 			}
 			shape = append(shape, s)
 			res.Label("text:" + op.Cls)
+			if op.Fmt != nil && strings.HasPrefix(op.Fmt.Color, "#") {
+				res.Label("formatted:colour-in-css-spelling")
+			}
 			if !checkpoint(res, doc, m, "", i) {
 				return finish(res, shape, nDefs, defs, reopens, renders, redefAfterReopen, pnDefs, fmtDefs, survive)
 			}
